@@ -3,6 +3,7 @@ from .. import obs
 from .c06 import operand, op_cells
 
 LEVEL = "exploration"
+SUITE_MONITOR = True      # also judge the repository's own tests/doctests through rv/monitors.py
 RULE = ("f.splice(new, start, end) / f.append(x) executed on the real FmtStr for every run "
         "layout up to the bound, every replacement from a family (empty str, 1-2 chars, 2-run "
         "FmtStr, FmtStr with an empty run, no-run FmtStr) and every 0 <= start <= end <= len+2 "
